@@ -32,10 +32,11 @@ def run_shard(ctx):
                 k += 1
                 if not ctx.mine(k):
                     continue
-                case = {'family': 'relay-kinds', 'kind': kind, 'nrcpt': n, 'sender': True, 'backoff': [],
-                        'rounds': [dict(('r%d' % i, v) for i, v in enumerate(verdicts))]}
-                fails = [(s_, m) for s_, m in relaykinds.run_case(case) if s_.startswith('C13')]
-                ctx.record(repr(case), True, labels=['relay-kinds', 'kind=' + kind], case=case, failures=fails)
+                for no8bit in (False, True):
+                    case = {'family': 'relay-kinds', 'kind': kind, 'nrcpt': n, 'sender': True, 'backoff': [], 'no8bit': no8bit,
+                            'rounds': [dict(('r%d' % i, v) for i, v in enumerate(verdicts))]}
+                    fails = [(s_, m) for s_, m in relaykinds.run_case(case) if s_.startswith('C13')]
+                    ctx.record(repr(case), True, labels=['relay-kinds', 'kind=' + kind], case=case, failures=fails)
 
 
 def replay(case):
